@@ -310,7 +310,11 @@ func solveAll(w *World, obls []*Obligation, timeoutS, seed int) {
 			if o.Clause != nil && o.Clause.Withdrawn && t > 5 {
 				t = 5 // recorded finding: expected to fail
 			}
-			r := solve(o.Name, q, o.Values, t, seed, "")
+			t0 := t
+			if o.Expect == "unsat" && len(w.splits) > 0 && len(w.splits) <= 4 && t0 > 4 {
+				t0 = 4 // a case split is available: do not wait long for the monolithic query
+			}
+			r := solve(o.Name, q, o.Values, t0, seed, "")
 			if o.Expect == "unsat" && (r.Status == "unknown" || r.Status == "timeout") && len(w.splits) > 0 && len(w.splits) <= 4 {
 				// exhaustive case split on the contract's split conditions
 				all := true
